@@ -11,7 +11,7 @@ name: expand_bounds
 define: VERIF_EXPAND_ANNOT, VERIF_EXPAND_PSTUBS, VERIF_OWN_STRLEN, VERIF_OWN_STRCMP, U_PAD=0
 src: conf.c
 enforce: spifconf_shell_expand
-replace: spiftool_safe_strncpy, builtin_random, builtin_exec, builtin_get, builtin_put, builtin_dirscan, builtin_version, builtin_appname
+replace: builtin_random, builtin_exec, builtin_get, builtin_put, builtin_dirscan, builtin_version, builtin_appname
 backend: sat
 loops: 1
 timeout: 600
@@ -24,17 +24,30 @@ timeout: 600
 #include "conf.h"
 
 /* ---- callee contracts ------------------------------------------------------------------------------ */
-/* spiftool_safe_strncpy (strings.c; proved in C13.safe_strncpy for a destination of exactly `size` bytes:
- * "writes at most size bytes, leaves dest NUL-terminated, stores the longest prefix that fits").  The frame
- * is stated as the first `size` bytes from dest, which is what that proof shows for a destination that
- * is the whole object; the function does not look at the object it writes into. */
-#define SSN_L(src, size) VMIN(strlen_g(src), (size_t) (size) - 1)
+/* spiftool_safe_strncpy (strings.c; contract proved in C13.safe_strncpy for a destination of exactly `size`
+ * bytes: "writes at most size bytes, leaves dest NUL-terminated, stores the longest prefix that fits").
+ * It is used here as an EXECUTABLE MODEL of that contract instead of --replace-call-with-contract, because
+ * the frame "the first size bytes from dest" is a symbolic slice of the 20 kB fixed-size array newbuff and
+ * cbmc 6.11 cannot havoc such a slice (array_replace on a large constant-size array: the simplifier
+ * recurses once per element and overflows the stack).  The model over-approximates the contract: the WHOLE
+ * destination object gets arbitrary contents, then (a) the byte at the ghost index vg_k is restored when it
+ * lies outside [dest, dest+size) -- frame --, (b) set to the corresponding source byte when it lies inside
+ * the copied prefix, (c) the terminator is stored at dest[L], L = min(strlen(src), size-1). */
 spif_bool_t spiftool_safe_strncpy(spif_charptr_t dest, const spif_charptr_t src, spif_int32_t size)
-__CPROVER_requires(size > 0 && __CPROVER_w_ok(dest, (size_t) size))
-__CPROVER_requires(src != NULL && VG_REGISTERED(src) && __CPROVER_POINTER_OFFSET(src) == 0)
-__CPROVER_assigns(__CPROVER_object_upto(dest, (size_t) size))
-__CPROVER_ensures(dest[VMIN(VG_REGLEN(src), (size_t) size - 1)] == 0)
-;
+{
+    __CPROVER_assert(size > 0 && __CPROVER_w_ok(dest, (size_t) size), "safe_strncpy requires: size > 0 and dest has size writable bytes");
+    __CPROVER_assert(src != NULL && VG_REGISTERED(src) && __CPROVER_POINTER_OFFSET(src) == 0, "safe_strncpy requires: src is a C string (registered exact length)");
+    size_t n = VG_REGLEN(src), L = VMIN(n, (size_t) size - 1), off = __CPROVER_POINTER_OFFSET(dest);
+    char *base = dest - off;
+    _Bool k_in_obj = vg_k < __CPROVER_OBJECT_SIZE(dest);
+    char keep = k_in_obj ? base[vg_k] : 0;
+    char from = (vg_k >= off && vg_k - off < L) ? src[vg_k - off] : 0;
+    __CPROVER_havoc_object(dest);
+    if (k_in_obj && (vg_k < off || vg_k - off >= (size_t) size)) base[vg_k] = keep;
+    if (vg_k >= off && vg_k - off < L) base[vg_k] = from;
+    dest[L] = 0;
+    return n <= (size_t) size - 1 ? TRUE : FALSE;
+}
 
 /* every built-in: NULL or a fresh heap string of exactly vg_sl2 characters (registered), whose byte at
  * the ghost index vg_q is not vg_fb; may change the variable store */
